@@ -223,7 +223,7 @@ def check (c):
             f1 = f0 * 0.5e-4 / max (rl)
         else:
             f1 = f0 * 2e-4 / min (rl)
-        m2 = gen.build (dict (spec, f = f1))
+        m2 = gen.build (dict (spec, f = f1), route = 'api') if spec.get ('route') == 'api' else gen.build (dict (spec, f = f1))
         m2.f = f0
         common.guarded (m2.compute_impedance_matrix, 'compute_impedance_matrix')
         Z2 = np.array (m2.Z)
